@@ -148,6 +148,12 @@ def _nested_code():
         depth = 4 if c else 45
         return ("var dn9=0; function fn9(){ dn9++; if (dn9 < %d) { new Function('fn9(); fn9()')(); } dn9--; }" % depth, "fn9();")
     K["newfn_tree"] = newfn_tree
+    # a prototype chain the script tries to close into a cycle, then instanceof / lookups along it
+    K["proto_cycle"] = lambda c, p: (
+        "function F9(){}",
+        "var p9={}, o9=Object.create(p9); try { Object.setPrototypeOf(p9, o9); } catch (e9) {} "
+        "var q9={}; try { Object.setPrototypeOf(q9, q9); } catch (e8) {} "
+        "while(%s){ o9 instanceof F9; o9.zz9; q9 instanceof F9; q9.zz9 = 1; }" % _c(c))
     K["fn_eval_loop"] = lambda c, p: ("", "var g8=new Function(%s); g8();" % json.dumps(
         "eval(%s)" % json.dumps("while(%s){}" % _c(c))))
     return K
